@@ -437,4 +437,309 @@ theorem applyDepartures_coreExt {T : List String} {a a' : A} (h : CoreExt T a a'
   rw [applyDepartures_eq, applyDepartures_eq]
   exact ⟨by simp [h.mods], h.buf, h.fail, h.w, h.nAccepted, h.errs⟩
 
+
+/-! ## `checkAcks` passes when the acknowledgements are as the property says -/
+
+theorem chk_true (a : A) (p c : String) : a.chk true p c = a := rfl
+
+theorem chk_of (a : A) (b : Bool) (p c : String) (hb : b = true) : a.chk b p c = a := by subst hb; rfl
+
+theorem foldl_fix {β : Type} (f : A → β → A) (a : A) : ∀ (l : List β), (∀ x ∈ l, f a x = a) → l.foldl f a = a
+  | [], _ => rfl
+  | y :: rest, h => by
+    rw [List.foldl_cons, h y (by simp)]
+    exact foldl_fix f a rest (fun x hx => h x (by simp [hx]))
+
+/-- the ACKNOWLEDGE frames among the events -/
+def ackSends (evs : List Ev) : List (Nat × Nat × Frame) := (sends evs).filter (fun p => p.2.2.body == .ack)
+
+/-- number of ACKNOWLEDGE frames written to `v` -/
+def ackTo (evs : List Ev) (v : Nat) : Nat := ((ackSends evs).filter (·.1 == v)).length
+
+theorem checkAcks_false_ok (cfg : Cfg) (a : A) (u : Nat) (evs : List Ev) (h : ackSends evs = []) :
+    checkAcks cfg a u false evs = a := by
+  unfold checkAcks
+  unfold ackSends at h
+  simp [h, chk_true]
+
+theorem checkAcks_none_ok (cfg : Cfg) (a : A) (u : Nat) (evs : List Ev) (h : a.get u = none) :
+    checkAcks cfg a u true evs = a := by
+  unfold checkAcks
+  simp [h]
+
+theorem checkAcks_true_ok (cfg : Cfg) (a : A) (u : Nat) (m : AMod) (evs : List Ev) (hget : a.get u = some m)
+    (h1 : ∀ p ∈ ackSends evs, p.2.2.dest = m.modId ∧ p.2.2.src = 0)
+    (h2 : a.failing u = false → ackTo evs u = 1 + (if m.isLogger then 1 else 0))
+    (h3 : ∀ l ∈ a.mods, l.uid ≠ u → l.alive = true →
+      if l.isLogger && l.connected then
+        (a.failing l.uid = false → if a.failing u then ackTo evs l.uid ≤ 1 else ackTo evs l.uid = 1)
+      else ackTo evs l.uid = 0) :
+    checkAcks cfg a u true evs = a := by
+  unfold checkAcks
+  simp only [Bool.not_true, Bool.false_eq_true, if_false, hget]
+  have e1 : (((sends evs).filter (fun p => p.2.2.body == .ack)).all
+      (fun p => p.2.2.dest == m.modId && p.2.2.src == 0)) = true := by
+    rw [List.all_eq_true]
+    intro p hp
+    have := h1 p hp
+    simp [this.1, this.2]
+  rw [e1, chk_true]
+  have e2 : (if a.failing u = true then a
+      else a.chk ((((sends evs).filter (fun p => p.2.2.body == .ack)).filter (·.1 == u)).length ==
+        1 + if m.isLogger = true then 1 else 0) "C19"
+        s!"sender {u} got {(((sends evs).filter (fun p => p.2.2.body == .ack)).filter (·.1 == u)).length} ACKNOWLEDGE frames for one control frame") = a := by
+    split
+    · rfl
+    · rename_i hf
+      have := h2 (by simpa using hf)
+      unfold ackTo ackSends at this
+      rw [this]; simp [chk_true]
+  rw [e2]
+  apply foldl_fix
+  intro l hl
+  by_cases hlu : l.uid = u
+  · simp [hlu]
+  · by_cases hal : l.alive = true
+    · have h := h3 l hl hlu hal
+      have hlu' : (l.uid == u) = false := by simpa using hlu
+      simp only [hlu', hal, Bool.not_true, Bool.or_self, Bool.false_eq_true, if_false]
+      unfold ackTo ackSends at h
+      split
+      · rename_i hlc
+        rw [if_pos hlc] at h
+        split
+        · rfl
+        · rename_i hfl
+          have h' := h (by simpa using hfl)
+          split
+          · rename_i hfu
+            rw [if_pos hfu] at h'
+            exact chk_of _ _ _ _ (decide_eq_true h')
+          · rename_i hfu
+            rw [if_neg hfu] at h'
+            exact chk_of _ _ _ _ (beq_iff_eq.mpr h')
+      · rename_i hlc
+        rw [if_neg hlc] at h
+        exact chk_of _ _ _ _ (beq_iff_eq.mpr h)
+    · have : l.alive = false := by simpa using hal
+      simp [this]
+
+
+/-! ## the shape of `segment`, case by case -/
+
+/-- the frame does not arrive whole: EOF / reset at the header, short header, unreadable length, death inside the payload -/
+def brokenRd (cfg : Cfg) (rd : Read) : Bool :=
+  rd.hdrErr || !rd.hdrOk || rd.h.nbytes < 0 || rd.h.nbytes > cfg.bufMax ||
+    (rd.h.nbytes > 0 && (rd.payErr || (rd.avail : Int) < rd.h.nbytes))
+
+/-- what the payload read leaves in the receive buffer -/
+def bufAfter (cfg : Cfg) (buf : List Nat) (rd : Read) : List Nat :=
+  if rd.hdrErr || !rd.hdrOk || rd.h.nbytes ≤ 0 || rd.h.nbytes > cfg.bufMax || rd.payErr then buf
+  else bufWrite buf rd.pay (min rd.avail rd.h.nbytes.toNat)
+
+def afterBuf (cfg : Cfg) (a : A) (rd : Read) : A := { a with buf := bufAfter cfg a.buf rd }
+
+theorem afterBuf_eq (cfg : Cfg) (a : A) (rd : Read) :
+    (if rd.hdrErr || !rd.hdrOk || rd.h.nbytes ≤ 0 || rd.h.nbytes > cfg.bufMax || rd.payErr then a
+     else { a with buf := bufWrite a.buf rd.pay (min rd.avail rd.h.nbytes.toNat) }) = afterBuf cfg a rd := by
+  unfold afterBuf bufAfter; split <;> rfl
+
+theorem segment_broken (cfg : Cfg) (a : A) (rd : Read) (evs : List Ev) (m : AMod) (hget : a.get rd.uid = some m)
+    (hal : m.alive = true) (hb : brokenRd cfg rd = true) :
+    ∃ Y, ErrExt ["C07"] (afterBuf cfg a rd) Y ∧
+      segment cfg a rd evs =
+        applyDepartures (checkDepartures cfg (checkAcks cfg Y rd.uid false evs) (some rd.uid) evs) evs := by
+  refine ⟨?Y, ?h1, ?h2⟩
+  case h2 =>
+    unfold segment
+    unfold brokenRd at hb
+    simp only [hget, hal, Bool.not_true, Bool.false_eq_true, if_false, hb, if_true]
+    rfl
+  · rw [afterBuf_eq]; exact errExt_chk _ _ _ _ _ (by simp)
+
+/-- the abstract meaning of SUBSCRIBE / RESUME (`add`) and UNSUBSCRIBE / PAUSE of type `ty` -/
+def subUpd (cfg : Cfg) (ty : Int) (add : Bool) (m : AMod) : AMod :=
+  if ty == cfg.allTypes then (if add then { m with subAll := true, types := [] } else { m with subAll := false, types := [] })
+  else if m.subAll then m
+  else if add then { m with types := if m.types.contains ty then m.types else m.types ++ [ty] }
+  else { m with types := m.types.filter (· != ty) }
+
+section shapes
+variable (cfg : Cfg) (a : A) (rd : Read) (evs : List Ev) (m : AMod) (hget : a.get rd.uid = some m)
+  (hal : m.alive = true) (hb : brokenRd cfg rd = false)
+include hget hal hb
+
+theorem segment_reconnect
+    (hc : (rd.h.mtype == cfg.mtConnect || rd.h.mtype == cfg.mtConnectV2) = true) (hcn : m.connected = true) :
+    segment cfg a rd evs =
+      applyDepartures (checkDepartures cfg (checkAcks cfg (afterBuf cfg a rd) rd.uid false evs) none evs) evs := by
+  unfold segment
+  unfold brokenRd at hb
+  simp only [hget, hal, Bool.not_true, Bool.false_eq_true, if_false, hb, hc, if_true, hcn, afterBuf_eq]
+
+theorem segment_connect
+    (hc : (rd.h.mtype == cfg.mtConnect || rd.h.mtype == cfg.mtConnectV2) = true) (hcn : m.connected = false) :
+    segment cfg a rd evs =
+      match checkConnect cfg (afterBuf cfg a rd) rd.uid m rd.h evs with
+      | (a, none) => applyDepartures (checkDepartures cfg a (some rd.uid) evs) evs
+      | (a, some ok) =>
+        applyDepartures (checkInfos (checkDepartures cfg (checkAcks cfg a rd.uid ok evs)
+          (if ok then none else some rd.uid) evs) evs) evs := by
+  unfold segment
+  unfold brokenRd at hb
+  simp only [hget, hal, Bool.not_true, Bool.false_eq_true, if_false, hb, hc, if_true, hcn, afterBuf_eq]
+  rfl
+
+theorem segment_disconnect
+    (hc : (rd.h.mtype == cfg.mtConnect || rd.h.mtype == cfg.mtConnectV2) = false)
+    (hd : (rd.h.mtype == cfg.mtDisconnect) = true) :
+    ∃ Y, ErrExt ["C07"] (afterBuf cfg a rd) Y ∧
+      segment cfg a rd evs =
+        applyDepartures (checkDepartures cfg (checkAcks cfg Y rd.uid false evs) (some rd.uid) evs) evs := by
+  refine ⟨?Y, ?h1, ?h2⟩
+  case h2 =>
+    unfold segment
+    unfold brokenRd at hb
+    simp only [hget, hal, Bool.not_true, Bool.false_eq_true, if_false, hb, hc, hd, if_true]
+    rfl
+  · rw [afterBuf_eq]; exact errExt_chk _ _ _ _ _ (by simp)
+
+theorem segment_sub
+    (hc : (rd.h.mtype == cfg.mtConnect || rd.h.mtype == cfg.mtConnectV2) = false)
+    (hd : (rd.h.mtype == cfg.mtDisconnect) = false)
+    (hs : (rd.h.mtype == cfg.mtSubscribe || rd.h.mtype == cfg.mtResume || rd.h.mtype == cfg.mtUnsubscribe ||
+            rd.h.mtype == cfg.mtPause) = true) :
+    segment cfg a rd evs =
+      applyDepartures (checkDepartures cfg (checkAcks cfg
+        ((afterBuf cfg a rd).upd rd.uid (subUpd cfg (bufI32 (afterBuf cfg a rd).buf 0)
+          (rd.h.mtype == cfg.mtSubscribe || rd.h.mtype == cfg.mtResume))) rd.uid true evs) none evs) evs := by
+  unfold segment
+  unfold brokenRd at hb
+  simp only [hget, hal, Bool.not_true, Bool.false_eq_true, if_false, hb, hc, hd, hs, if_true, afterBuf_eq]
+  rfl
+
+theorem segment_setName_bad
+    (hc : (rd.h.mtype == cfg.mtConnect || rd.h.mtype == cfg.mtConnectV2) = false)
+    (hd : (rd.h.mtype == cfg.mtDisconnect) = false)
+    (hs : (rd.h.mtype == cfg.mtSubscribe || rd.h.mtype == cfg.mtResume || rd.h.mtype == cfg.mtUnsubscribe ||
+            rd.h.mtype == cfg.mtPause) = false)
+    (hn : (rd.h.mtype == cfg.mtSetName) = true) (hnm : cstr (afterBuf cfg a rd).buf 0 32 = none) :
+    segment cfg a rd evs =
+      applyDepartures (checkDepartures cfg (checkAcks cfg (afterBuf cfg a rd) rd.uid false evs) (some rd.uid) evs) evs := by
+  unfold segment
+  unfold brokenRd at hb
+  simp only [hget, hal, Bool.not_true, Bool.false_eq_true, if_false, hb, hc, hd, hs, hn, if_true, afterBuf_eq, hnm]
+
+theorem segment_setName
+    (hc : (rd.h.mtype == cfg.mtConnect || rd.h.mtype == cfg.mtConnectV2) = false)
+    (hd : (rd.h.mtype == cfg.mtDisconnect) = false)
+    (hs : (rd.h.mtype == cfg.mtSubscribe || rd.h.mtype == cfg.mtResume || rd.h.mtype == cfg.mtUnsubscribe ||
+            rd.h.mtype == cfg.mtPause) = false)
+    (hn : (rd.h.mtype == cfg.mtSetName) = true) (nm : List Nat) (hnm : cstr (afterBuf cfg a rd).buf 0 32 = some nm) :
+    segment cfg a rd evs =
+      applyDepartures (checkInfos (checkDepartures cfg (checkAcks cfg
+        ((afterBuf cfg a rd).upd rd.uid (fun m => { m with name := nm })) rd.uid false evs) none evs) evs) evs := by
+  unfold segment
+  unfold brokenRd at hb
+  simp only [hget, hal, Bool.not_true, Bool.false_eq_true, if_false, hb, hc, hd, hs, hn, if_true, afterBuf_eq, hnm]
+
+theorem segment_ready
+    (hc : (rd.h.mtype == cfg.mtConnect || rd.h.mtype == cfg.mtConnectV2) = false)
+    (hd : (rd.h.mtype == cfg.mtDisconnect) = false)
+    (hs : (rd.h.mtype == cfg.mtSubscribe || rd.h.mtype == cfg.mtResume || rd.h.mtype == cfg.mtUnsubscribe ||
+            rd.h.mtype == cfg.mtPause) = false)
+    (hn : (rd.h.mtype == cfg.mtSetName) = false) (hr : (rd.h.mtype == cfg.mtModuleReady) = true) :
+    segment cfg a rd evs =
+      applyDepartures (checkInfos (checkDepartures cfg (checkAcks cfg
+        ((afterBuf cfg a rd).upd rd.uid (fun m => { m with pid := bufI32 (afterBuf cfg a rd).buf 0 })) rd.uid false evs)
+        none evs) evs) evs := by
+  unfold segment
+  unfold brokenRd at hb
+  simp only [hget, hal, Bool.not_true, Bool.false_eq_true, if_false, hb, hc, hd, hs, hn, hr, if_true, afterBuf_eq]
+
+theorem segment_data
+    (hc : (rd.h.mtype == cfg.mtConnect || rd.h.mtype == cfg.mtConnectV2) = false)
+    (hd : (rd.h.mtype == cfg.mtDisconnect) = false)
+    (hs : (rd.h.mtype == cfg.mtSubscribe || rd.h.mtype == cfg.mtResume || rd.h.mtype == cfg.mtUnsubscribe ||
+            rd.h.mtype == cfg.mtPause) = false)
+    (hn : (rd.h.mtype == cfg.mtSetName) = false) (hr : (rd.h.mtype == cfg.mtModuleReady) = false) :
+    ∃ Z, CoreExt [] (checkData cfg (checkAcks cfg (afterBuf cfg a rd) rd.uid false evs) rd.h evs) Z ∧
+      segment cfg a rd evs = applyDepartures (checkDepartures cfg Z none evs) evs := by
+  refine ⟨?Z, ?h1, ?h2⟩
+  case h2 =>
+    unfold segment
+    unfold brokenRd at hb
+    simp only [hget, hal, Bool.not_true, Bool.false_eq_true, if_false, hb, hc, hd, hs, hn, hr, afterBuf_eq]
+    rfl
+  · split
+    · exact CoreExt.refl _ _
+    · exact coreExt_stats _ rfl rfl rfl rfl rfl rfl
+
+end shapes
+
+
+/-! ## the outcomes of `checkConnect` -/
+
+/-- the abstract entry of a connection whose CONNECT was (observed to be) accepted with id `id` -/
+def connUpd (r : Req) (nm : List Nat) (id : Int) (m : AMod) : AMod :=
+  { m with connected := true, modId := id, unique := r.unique, isLogger := r.isLogger, isDaemon := r.isDaemon,
+           pid := r.pid, name := nm }
+
+/-- the id the Spec records: the requested one, or (dynamic) the one the first ACKNOWLEDGE is addressed to -/
+def connId (r : Req) (evs : List Ev) : Int :=
+  if r.modId != 0 then r.modId else match (ackSends evs).head? with | some p => p.2.2.dest | none => -1
+
+theorem checkConnect_cases (cfg : Cfg) (a : A) (u : Nat) (m : AMod) (h : Hdr) (evs : List Ev) :
+    ∃ Y, ErrExt ["C03", "C06", "C07"] a Y ∧
+      ((checkConnect cfg a u m h evs = (Y, none) ∧ ackSends evs = [] ∧ a.failing u = true) ∨
+       (checkConnect cfg a u m h evs = (Y, some false) ∧ (ackSends evs = [] ∨ (reqOf cfg m h a.buf).name = none)) ∨
+       (∃ nm, (reqOf cfg m h a.buf).name = some nm ∧ ackSends evs ≠ [] ∧
+          checkConnect cfg a u m h evs =
+            (Y.upd u (connUpd (reqOf cfg m h a.buf) nm (connId (reqOf cfg m h a.buf) evs)), some true))) := by
+  unfold checkConnect
+  dsimp only
+  generalize hr : reqOf cfg m h a.buf = r
+  have hacks : List.filter (fun p => p.2.2.body == Body.ack) (sends evs) = ackSends evs := rfl
+  rw [hacks]
+  by_cases h0 : ((ackSends evs).isEmpty && a.failing u) = true
+  · refine ⟨a, ErrExt.refl _ _, Or.inl ⟨by simp only [h0, if_true], ?_, ?_⟩⟩
+    · exact List.isEmpty_iff.mp ((Bool.and_eq_true _ _ ▸ h0).1)
+    · exact (Bool.and_eq_true _ _ ▸ h0).2
+  · simp only [h0, Bool.false_eq_true, if_false]
+    by_cases hemp : (ackSends evs).isEmpty = true
+    · -- refused
+      have hnil : ackSends evs = [] := List.isEmpty_iff.mp hemp
+      cases hn : r.name with
+      | none => exact ⟨_, errExt_chk _ _ _ _ _ (by simp), Or.inr (Or.inl ⟨rfl, Or.inl hnil⟩)⟩
+      | some nm =>
+        simp only [hemp, Bool.not_true, Bool.false_eq_true, if_false]
+        by_cases hid : (r.modId != 0) = true
+        · simp only [hid, if_true]
+          exact ⟨_, ((errExt_chk ["C03", "C06", "C07"] _ _ "C06" _ (by simp)).chk _ "C06" _ (by simp)).chk _ "C07" _ (by simp),
+            Or.inr (Or.inl ⟨rfl, Or.inl hnil⟩)⟩
+        · simp only [hid, Bool.false_eq_true, if_false]
+          exact ⟨_, (errExt_chk ["C03", "C06", "C07"] _ _ "C06" _ (by simp)).chk _ "C07" _ (by simp),
+            Or.inr (Or.inl ⟨rfl, Or.inl hnil⟩)⟩
+    · -- accepted
+      have hne : ackSends evs ≠ [] := fun e => hemp (List.isEmpty_iff.mpr e)
+      have hemp' : (ackSends evs).isEmpty = false := by simpa using hemp
+      cases hn : r.name with
+      | none =>
+        -- an accepted request with an undecodable name: reported under C03; no table update
+        exact ⟨_, errExt_chk _ _ _ _ _ (by simp), Or.inr (Or.inl ⟨rfl, Or.inr rfl⟩)⟩
+      | some nm =>
+        simp only [hemp', Bool.not_false, if_true]
+        by_cases hid : (r.modId != 0) = true
+        · simp only [hid, if_true]
+          refine ⟨?Y, ?hE, Or.inr (Or.inr ⟨nm, rfl, hne, ?hEq⟩)⟩
+          case hEq => unfold connId; simp only [hid, if_true]; rfl
+          case hE =>
+            exact ((errExt_chk ["C03", "C06", "C07"] _ _ "C06" _ (by simp)).chk _ "C06" _ (by simp)).chk _ "C07" _ (by simp)
+        · simp only [hid, Bool.false_eq_true, if_false]
+          refine ⟨?Y2, ?hE2, Or.inr (Or.inr ⟨nm, rfl, hne, ?hEq2⟩)⟩
+          case hEq2 =>
+            unfold connId; simp only [hid, Bool.false_eq_true, if_false]
+            rfl
+          case hE2 => exact (errExt_chk ["C03", "C06", "C07"] _ _ "C06" _ (by simp)).chk _ "C06" _ (by simp)
+
 end Pyrtma.Mgr.Spec
